@@ -38,6 +38,10 @@ def para_story(rng, sid, pool):
 
 def run(s):
     q = s.tier == 'quick'
+
+    def on_pair_state(ro, cur, ev):
+        acc.sweep(s, ro, cur, {'workload': 'pair-history'}, after=(ev or {}).get('msg_cls'))
+    K.pair_histories(s, timing='any', text='notes', on_state=on_pair_state)
     pool = gen.text_pool('notes')
     n = 200 if q else 8000
     for i in range(n):
@@ -56,7 +60,7 @@ def run(s):
 
         def on_state(ro, cur, ev, h=h):
             acc.sweep(s, ro, cur, {'history': h}, after=(ev or {}).get('msg_cls'))
-        K.fuzz_history(s, h, w, steps=(3, 15), text='notes', timing='any', on_state=on_state,
+        K.fuzz_history(s, h, w, steps=(3, 15), text='notes', timing='any', on_state=on_state, direct=0.25,
                        shape_weights=(0.95, 0.03, 0.02, 0.0), selfref=0.0)
     s.hist['fuzz_histories_total'] = nh
 
